@@ -60,7 +60,13 @@ class World(object):
         # kdiv: every extinction coefficient divided by it and the A_V range multiplied (spec theorem ScaleK): fitted A_V = kdiv x spec
         self.kdiv = kdiv
         self.law = fw.make_extinction(K, self.wavs, variety=h, vfactor=kdiv)
-        self.fitter = fw.make_fitter(self.dir, self.filts, self.law, ulo * kdiv, uhi * kdiv, use_memmap=False)
+        flist = list(self.filts)
+        if self.version == 2 and (h // 21) % 2 == 0:
+            # cube-format packages: one filter of the list is given by its wavelength instead of its name (the cube slice is used)
+            from astropy import units as u_
+            jw = (h // 42) % nb
+            flist[jw] = self.wavs[jw] * u_.micron
+        self.fitter = fw.make_fitter(self.dir, flist, self.law, ulo * kdiv, uhi * kdiv, use_memmap=False)
 
     def fit(self, source):
         return self.fitter.fit(source)
